@@ -91,8 +91,18 @@ def main():
             # fresh-process determinism replay: the lightest shard is executed a second time in another fresh process
             i0 = min(range(len(shards)), key=lambda i: shards[i].get("weight", 1))
             fut2 = ex.submit(_run_shard, (modname, shards[i0], tier, seed))
-            results = [futs[i].result() for i in range(len(shards))]
-            r2 = fut2.result()
+            results = []
+            for i in range(len(shards)):
+                try:
+                    results.append(futs[i].result())
+                except Exception as e:  # noqa: BLE001 - a worker process died (segfault / abort inside native code)
+                    results.append(dict(shard=str(shards[i].get("name")), evaluations=0, nontrivial=0, samples=[], violations=[], n_violations=0,
+                                        viol_sigs={}, counters={}, outcomes=[], digest="crash", notes=[], capped=False, wall_s=0.0,
+                                        crash="worker process died while running this shard (or a shard sharing the pool): %s: %s" % (type(e).__name__, e)))
+            try:
+                r2 = fut2.result()
+            except Exception:  # noqa: BLE001
+                r2 = dict(digest="crash")
     crashes = [r for r in results if r.get("crash")]
     det = None
     if shards and not crashes and not (a.inproc or jobs == 1 and len(shards) == 1):
